@@ -744,7 +744,10 @@ class TransferManager(BaseManager):
         except (ConnectionWriteError, PeerConnectionError) as exc:
             logger.debug("failed to queue transfer remotely : %s : %r", transfer, exc)
             transfer.increase_queue_attempts()
-            await transfer.state.queue()
+            # The peer can have offered the file over a connection of its own
+            # in the meantime: only a transfer that is still queued stays queued
+            if transfer.state.VALUE == TransferState.State.QUEUED:
+                await transfer.state.queue()
 
         else:
             transfer.remotely_queued = True
